@@ -1,24 +1,32 @@
-"""setup: full Coq build (all theorems), all model drivers, warm Go build cache."""
-import os, sys, time
+"""setup: full Coq build (all theorems of all properties), every property's own setup()
+(model extraction + OCaml driver, translators, ...), warm Go build cache.
+A property module checks/cNN.py may define `setup()`; it is called here."""
+import glob, importlib, os, sys, time, traceback
 from vplib import *
 
-MODELS = {
-    "C17": ("ExtractC17.v", "ocaml/c17", ["theories/Bitmask.v"]),
-}
 
 def main():
     t0 = time.time()
     coq_makefile()
-    ok, out, dt = coq_make([], timeout=3400)
+    # -k: a file that does not build must not hide the others; every check re-makes its own target anyway
+    with Lock("coq"):
+        rc, out, dt = run(["make", "-k", "-j16"], cwd=COQ, timeout=3400)
     print(out[-3000:])
-    if not ok:
-        print("SETUP: coq build failed")
-        return 1
-    for prop, (ev, dd, deps) in MODELS.items():
-        build_model(prop, ev, os.path.join(ROOT, dd), deps)
-    rc, out, _ = run(["go", "build", "./..."], cwd=REPO, env=go_env(), timeout=1200)
-    print(out[-2000:])
-    rc2, out2, _ = run(["go", "test", "-count=1", "-vet=off", "-run", "^$", "./..."], cwd=REPO, env=go_env(), timeout=1200)
+    print("SETUP: coq build rc=%d in %.0fs" % (rc, dt))
+    bad = 0
+    for f in sorted(glob.glob(os.path.join(ROOT, "checks", "c[0-9][0-9].py"))):
+        name = os.path.basename(f)[:-3]
+        try:
+            mod = importlib.import_module(name)
+            if hasattr(mod, "setup"):
+                mod.setup()
+                print("SETUP: %s ok" % name)
+        except Exception:
+            bad += 1
+            print("SETUP: %s failed\n%s" % (name, traceback.format_exc()))
+    rc1, out1, _ = run(["go", "build", "./internal/..."], cwd=REPO, env=go_env(), timeout=1200)
+    print(out1[-2000:])
+    rc2, out2, _ = run(["go", "test", "-count=1", "-vet=off", "-tags", "verif", "-run", "^$", "./internal/..."], cwd=REPO, env=go_env(), timeout=1200)
     print(out2[-2000:])
-    print("setup done in %.0fs" % (time.time() - t0))
-    return 0 if rc == 0 and rc2 == 0 else 1
+    print("setup done in %.0fs (coq rc=%d, property setups failed=%d, go rc=%d/%d)" % (time.time() - t0, rc, bad, rc1, rc2))
+    return 0 if rc1 == 0 and rc2 == 0 else 1
